@@ -227,6 +227,12 @@ class SubclassJSONSerializer:
             raise ClassNotFoundError(class_name, module_name)
 
         if issubclass(target_cls, SubclassJSONSerializer):
+            if (
+                getattr(target_cls._from_json, "__func__", None)
+                is SubclassJSONSerializer._from_json.__func__
+            ):
+                # the class (e.g. the abstract base itself) does not implement _from_json
+                raise ClassNotDeserializableError(target_cls)
             return target_cls._from_json(data, **kwargs)
 
         registered_json_deserializer = JSONSerializableTypeRegistry().get_deserializer(
